@@ -256,7 +256,7 @@ Proof.
     assert (V1 : vpath_ok e1 (tl signs) (S k) c path o2 t').
     { eapply vpath_ok_env; [exact V'|]. intros j s' Hj. apply Fr. intros s''. apply tagk_ne; lia. }
     assert (Hp' : head_ne (S k) (tagk k rs)).
-    { cbn. intros E. apply digit_inj in E; lia. }
+    { unfold head_ne, tagk. intros E. apply digit_inj in E; lia. }
     destruct (IH ws (tl signs) (S k) c (tagk k rs) e1 (wrap (pv + ws * o1)) l' fin o2 t' Hws ltac:(lia) Hp' Rec Lres (wrap_range _) V1)
       as [e2 [Run2 Lfin]].
     exists e2. split.
